@@ -214,7 +214,8 @@ def run_generated(cx, spec, rng):
             px = proxy_info_bytes(nproxy, rng)
             body += px
             fl = 0x80 | (0x40 if rep % 4 < 2 else 0)
-            wire = R.enc_msg(code, app=4, flags=fl, hbh=rng.getrandbits(32), e2e=rng.getrandbits(32), avps=body)
+            appid = [4, 0, 16777238, 0xffffffff, 1][rep % 5]      # header application id, the boundary values too
+            wire = R.enc_msg(code, app=appid, flags=fl, hbh=rng.getrandbits(32), e2e=rng.getrandbits(32), avps=body)
             rp = {"op": "generated", "wire": wire.hex()}
             for gen in ("node", "app"):
                 cx.evals += 1
@@ -271,7 +272,7 @@ def run_generated(cx, spec, rng):
                     if v not in (sess, sess.decode()):
                         cx.witness(f"generated.session_id_dropped_entirely.{tkey}",
                                    {"code": code, "gen": gen, "cls": type(ans).__name__, "object_has": repr(v)[:60]}, rp)
-                if (h.code, h.app, h.hbh, h.e2e) != (code, 4, int.from_bytes(wire[12:16], "big"),
+                if (h.code, h.app, h.hbh, h.e2e) != (code, appid, int.from_bytes(wire[12:16], "big"),
                                                      int.from_bytes(wire[16:20], "big")):
                     cx.witness("generated.header_not_mirrored", {"code": code, "gen": gen}, rp)
                 if h.flags & 0xb0 or (h.flags & 0x40) != (fl & 0x40):  # R/E/T cleared, P kept
